@@ -158,6 +158,22 @@ def g_peep(tier):
     for (fn, f), (cn, cl), (tn, te) in itertools.product(firsts, clob, tests):
         yield mkprog('peep/f/%s+%s+%s' % (fn, cn, tn), [A(V('va'), f()), cl(), A(V('vc'), f()), te()])
         yield mkprog('peep/f2/%s+%s+%s' % (fn, cn, tn), [A(V('vc'), f()), cl(), te()])
+    # aliasing through pointers: the same cell read/written by name and through a pointer (or through two index registers)
+    rd_p = [('pY', lambda: Index('pp', V('Y'))), ('dp', lambda: Deref('pp'))]
+    mods_name = [('inc', lambda: ExprS(Inc('++', False, V('va')))), ('set7', lambda: A(V('va'), C(7))), ('addc', lambda: A(V('va'), V('vd'), '+=')), ('dec', lambda: ExprS(Inc('--', True, V('va'))))]
+    mods_ptr = [('pY5', lambda: A(Index('pp', V('Y')), C(5))), ('dpc', lambda: A(Deref('pp'), V('vd'))), ('pYinc', lambda: ExprS(Inc('++', False, Index('pp', V('Y')))))]
+    setup = lambda: [A(V('pp'), Un('&', V('va'))), A(V('Y'), C(0))]
+    for (rn, rd), (mn, md) in itertools.product(rd_p, mods_name):
+        yield mkprog('peep/a/ptr-read/%s/%s' % (rn, mn), setup() + [A(V('vb'), rd()), md(), A(V('vc'), rd())])
+        yield mkprog('peep/a/ptr-cond/%s/%s' % (rn, mn), setup() + [If(B('==', rd(), C(3)), Block([md(), If(B('==', rd(), C(4)), A(V('X'), C(1)))]))])
+    for mn, md in mods_ptr:
+        yield mkprog('peep/a/name-read/%s' % mn, setup() + [A(V('vb'), V('va')), md(), A(V('vc'), V('va'))])
+        yield mkprog('peep/a/name-cond/%s' % mn, setup() + [If(B('==', V('va'), C(3)), Block([md(), If(B('==', V('va'), C(5)), A(V('X'), C(1)))]))])
+    arr_setup = lambda: [A(V('pp'), V('arr')), A(V('X'), B('&', V('X'), C(3))), A(V('Y'), B('&', V('Y'), C(3)))]
+    for mn, md in mods_ptr + [('aXinc', lambda: ExprS(Inc('++', False, Index('arr', V('X'))))), ('aY9', lambda: A(Index('arr', V('Y')), C(9))), ('a1v', lambda: A(Index('arr', C(1)), V('vd')))]:
+        for rn, rd in [('aX', lambda: Index('arr', V('X'))), ('aY', lambda: Index('arr', V('Y'))), ('a1', lambda: Index('arr', C(1))), ('pY', lambda: Index('pp', V('Y')))]:
+            yield mkprog('peep/a/arr/%s/%s' % (rn, mn), arr_setup() + [A(V('vb'), rd()), md(), A(V('vc'), rd())])
+            yield mkprog('peep/a/arr-reg/%s/%s' % (rn, mn), arr_setup() + [A(V('X' if rn != 'aX' else 'vb'), rd()), md(), A(V('vc'), rd())])
     # sandwiches a;b;a (reload / stale-register patterns need the same operand before and after an invalidating statement)
     for (t1, f1), (t2, f2) in itertools.product(full, full):
         pid = 'peep/s/%s+%s+%s' % (t1, t2, t1)
